@@ -243,6 +243,16 @@ def rterm_and_expected(case, obs):
     (which carries the libm log), or None"""
     from .impl import fh
     op = case["op"]
+    if op == "gauss" and obs.get("exc") is None and "libm" in obs and case["fn"] != "icdf":
+        tabs = {"e": [], "c": [], "p": [], "i": []}
+        for tag, x, r in obs["libm"]:
+            pair = (int(x, 16), int(r, 16))
+            if pair not in tabs[tag]:
+                tabs[tag].append(pair)
+        n = "(B64Num %s %s %s %s)" % tuple("(tab [%s])" % "; ".join("(%d, %d)%%Z" % p for p in tabs[k]) for k in "ecpi")
+        f = case["fn"]
+        call = "(@%s binary64 N (b %d)%s)" % (f, _bits(case["x"]), (" (b %d)" % _bits(case["t"])) if "t" in case else "")
+        return ("(let N := %s in [bits_of_b64 %s])" % (n, call), [_bits(fh(obs["res"]))])
     if op not in ("rate", "pwin", "pdraw", "prank") or obs.get("exc") is not None or "libm" not in obs:
         return None
     st = case["st"]
@@ -285,7 +295,8 @@ def run_calls(cases, cap, chunk=12, jobs=16):
     Returns dict(evaluated=, disagreements=[cases], error=)"""
     from . import enc
     res = {"evaluated": 0, "disagreements": [], "error": None, "files": 0, "libm_calls_tabulated": 0}
-    elig = [c for c in cases if c["op"] in ("rate", "pwin", "pdraw", "prank") and _gamma_term(c["st"]["gamma"]) is not None][:3 * cap]
+    elig = [c for c in cases if (c["op"] in ("rate", "pwin", "pdraw", "prank") and _gamma_term(c["st"]["gamma"]) is not None)
+            or (c["op"] == "gauss" and c["fn"] != "icdf")][:3 * cap]
     if not elig:
         return res
     obs = enc.run_model(elig, libm=True)
